@@ -13,36 +13,53 @@
   under `k ≤ n` (EQ, LT) / `k < n` (GT).
 -/
 import SPProofs.Properties.C12
+import SPProofs.Card.Requests
 
 namespace SPModel.C10
-open SPModel Builder
+open SPModel Builder Card
 
 /-- The cardinality builders never fail on a non-empty list of valid literals. -/
 theorem assert_total (n : Nat) (r : Request) (hne : r.vars ≠ []) (hx : ∀ x ∈ r.vars, LitOK n x) :
     ∃ b', (fromFresh n).applyRequest r = .ok b' ∧ Ext (fromFresh n) b' := by
-  sorry
+  obtain ⟨b', h1, h2, _⟩ := applyRequest_spec (fromFresh n) (Closed.fresh n) r hne hx
+  exact ⟨b', h1, h2⟩
 
 theorem assertEQ_iff (n k : Nat) (xs : List Int) (hx : ∀ x ∈ xs, LitOK n x) (b' : Builder)
     (h : (fromFresh n).assertKofN k xs = .ok b') (σ : Assign) :
     (∃ τ, Agree n σ τ ∧ cnfSat τ b'.vals = true) ↔ litCount σ xs = k := by
-  sorry
+  have hne : xs ≠ [] := by rintro rfl; simp [assertKofN] at h
+  exact (assertKofN_spec (fromFresh n) (Closed.fresh n) k xs hne hx).iff
+    (fun σ τ ha => by rw [litCount_congr hx ha]) h σ
 
 theorem assertLT_iff (n k : Nat) (xs : List Int) (hx : ∀ x ∈ xs, LitOK n x) (b' : Builder)
     (h : (fromFresh n).inequalityAssertion true k xs = .ok b') (σ : Assign) :
     (∃ τ, Agree n σ τ ∧ cnfSat τ b'.vals = true) ↔ litCount σ xs < k := by
-  sorry
+  have hne : xs ≠ [] := by rintro rfl; simp [inequalityAssertion] at h
+  have := (inequality_spec (fromFresh n) (Closed.fresh n) true k xs hne hx).iff
+    (fun σ τ ha => by rw [litCount_congr hx ha]) h σ
+  simpa using this
 
 theorem assertGT_iff (n k : Nat) (xs : List Int) (hx : ∀ x ∈ xs, LitOK n x) (b' : Builder)
     (h : (fromFresh n).inequalityAssertion false k xs = .ok b') (σ : Assign) :
     (∃ τ, Agree n σ τ ∧ cnfSat τ b'.vals = true) ↔ litCount σ xs > k := by
-  sorry
+  have hne : xs ≠ [] := by rintro rfl; simp [inequalityAssertion] at h
+  have := (inequality_spec (fromFresh n) (Closed.fresh n) false k xs hne hx).iff
+    (fun σ τ ha => by rw [litCount_congr hx ha]) h σ
+  simpa using this
 
 /-- Uniqueness of the satisfying extension, for all three relations. -/
 theorem assert_unique (n : Nat) (r : Request) (hx : ∀ x ∈ r.vars, LitOK n x) (b' : Builder)
     (h : (fromFresh n).applyRequest r = .ok b') (τ₁ τ₂ : Assign)
     (h₁ : cnfSat τ₁ b'.vals = true) (h₂ : cnfSat τ₂ b'.vals = true) (hag : Agree n τ₁ τ₂) :
     Agree b'.nvars τ₁ τ₂ := by
-  sorry
+  have hne : r.vars ≠ [] := by
+    intro h0
+    cases hrel : r.rel <;>
+      simp [applyRequest, hrel, h0, assertKofN, inequalityAssertion] at h
+  obtain ⟨b'', e, hext, _⟩ := applyRequest_spec (fromFresh n) (Closed.fresh n) r hne hx
+  rw [h] at e
+  cases e
+  exact hext.unique ((vals_sat_iff hext τ₁).1 h₁) ((vals_sat_iff hext τ₂).1 h₂) hag
 
 /-- `combine_cnf_with_requests`: the combined clause list has a satisfying
     extension of σ iff σ satisfies the base clauses and every request, and the
@@ -55,7 +72,30 @@ theorem combine_models (n : Nat) (init : List Clause) (reqs : List Request)
           (cnfSat σ init = true ∧ ∀ r ∈ reqs, r.holds σ = true)) ∧
       (∀ τ₁ τ₂ : Assign, cnfSat τ₁ φ = true → cnfSat τ₂ φ = true → Agree n τ₁ τ₂ →
           ∀ v, 1 ≤ v → (∃ c ∈ φ, ∃ l ∈ c, l.natAbs = v) → τ₁ v = τ₂ v) := by
-  sorry
+  obtain ⟨b, e, hext, hp, hq⟩ :=
+    applyRequests_spec reqs (fromFresh n) (Closed.fresh n) hreqs
+  have hcl : Closed b := (Closed.fresh n).ext hext
+  have hle : n ≤ b.nvars := hext.le
+  refine ⟨b.vals ++ init, by simp only [combineCnfWithRequests, e], ?_, ?_⟩
+  · intro σ
+    constructor
+    · rintro ⟨τ, ha, hs⟩
+      rw [cnfSat_append, Bool.and_eq_true] at hs
+      refine ⟨by rw [cnfSat_congr hinit ha]; exact hs.2, fun r hr => ?_⟩
+      rw [Request.holds_congr r (hreqs r hr).2 ha]
+      exact hp τ ((vals_sat_iff hext τ).1 hs.1) r hr
+    · rintro ⟨hi, hr⟩
+      obtain ⟨τ, ha, hτ⟩ := hq σ (by intro it hm; simp [fromFresh] at hm) hr
+      refine ⟨τ, ha, ?_⟩
+      rw [cnfSat_append, Bool.and_eq_true]
+      exact ⟨(vals_sat_iff hext τ).2 hτ, by rw [← cnfSat_congr hinit ha]; exact hi⟩
+  · intro τ₁ τ₂ h₁ h₂ hag v hv hocc
+    rw [cnfSat_append, Bool.and_eq_true] at h₁ h₂
+    have hagree := hext.unique ((vals_sat_iff hext τ₁).1 h₁.1) ((vals_sat_iff hext τ₂).1 h₂.1) hag
+    obtain ⟨c, hc, l, hl, rfl⟩ := hocc
+    rcases List.mem_append.1 hc with hc | hc
+    · exact hagree _ hv (hcl.vals_lits c hc l hl)
+    · exact hag _ hv (hinit c hc l hl).2
 
 /-- Non-vacuity: "fewer than 2 of 3" is a request that meets the hypotheses. -/
 example : ∃ b', (fromFresh 3).inequalityAssertion true 2 [1, 2, 3] = .ok b' ∧ b'.nvars = 41 := by
